@@ -69,7 +69,8 @@ fn k_validate_and_try_new_agree() {
 }
 
 fn alloc_release_reuse(fl: Freelist) {
-  let a = arena(64, fl);
+  // maximum_retries 1: the retry loop around the slow path adds nothing on one thread and multiplies CBMC's work
+  let a = Options::new().with_capacity(64).with_freelist(fl).with_maximum_retries(1).alloc::<Arena>().unwrap();
   a.set_minimum_segment_size(1);
   let (n1, n3): (u32, u32) = (kani::any(), kani::any());
   kani::assume(n1 >= 16 && n1 <= 32 && n3 <= 20);
